@@ -683,6 +683,10 @@ func c15RunPlan(c *core.Case, o *core.Outcome) {
 		if k == ns-1 || r.IntN(3) == 0 {
 			plan[k].keys[preKey] = fmt.Sprintf("set-by-%d", k)
 		}
+		// names are exported as written (environment variable names are case sensitive)
+		plan[k].keys[fmt.Sprintf("verif_Mixed_case_%d", k)] = fmt.Sprintf("mixed-%d", k)
+		// a parameter the scenario itself overwrites while the stage runs: still the stage's to remove
+		plan[k].keys[fmt.Sprintf("VERIF_REWRITTEN_%d", k)] = "as-configured"
 		if r.IntN(2) == 0 {
 			// a parameter whose value is the empty string is still a parameter: set, and empty
 			plan[k].keys[fmt.Sprintf("VERIF_EMPTY_%d", k%2)] = ""
@@ -772,7 +776,7 @@ func c15RunPlan(c *core.Case, o *core.Outcome) {
 			evalStages = append(evalStages, i)
 			mu.Unlock()
 			for k, v := range plan[i].keys {
-				if strings.Contains(k, "=") {
+				if strings.Contains(k, "=") || strings.HasPrefix(k, "VERIF_REWRITTEN_") {
 					continue
 				}
 				if got, set := os.LookupEnv(k); got != v || !set {
@@ -791,6 +795,7 @@ func c15RunPlan(c *core.Case, o *core.Outcome) {
 	}
 	seenInBodies := map[int]bool{}
 	stageInflight := make([]atomic.Int64, len(plan))
+	rewriteOnce := make([]sync.Once, len(plan))
 	scenario := func(t *f1testing.T) f1testing.RunFn {
 		return func(t *f1testing.T) {
 			// descending stage order: seeing a later stage's key first and an earlier stage's key afterwards proves overlap
@@ -801,6 +806,14 @@ func c15RunPlan(c *core.Case, o *core.Outcome) {
 				}
 			}
 			bodyReads.Add(1)
+			if len(set) == 1 {
+				// the first body of a stage to get here overwrites one of the stage's parameters (long before the stage ends)
+				rewriteOnce[set[0]].Do(func() {
+					if rk := fmt.Sprintf("VERIF_REWRITTEN_%d", set[0]); os.Getenv(rk) == "as-configured" {
+						os.Setenv(rk, "rewritten-by-the-scenario")
+					}
+				})
+			}
 			if len(set) == 1 && rp.Shape == "users-then-rate" {
 				// bodies of one stage in flight at once: never more than the stage's pool (a users stage's own number of
 				// users, limits.concurrency for a rate stage). One straggler is tolerated: the stage of a body is read from the
@@ -828,7 +841,7 @@ func c15RunPlan(c *core.Case, o *core.Outcome) {
 						return ""
 					}
 					for k, v := range plan[j].keys {
-						if strings.Contains(k, "=") {
+						if strings.Contains(k, "=") || strings.HasPrefix(k, "VERIF_REWRITTEN_") {
 							continue
 						}
 						if got, ok := os.LookupEnv(k); !ok || got != v {
